@@ -1613,3 +1613,17 @@ mutant("c18-g11-each-variable-off-by-one", "C18", (X, """        else:
             resolution = values
 
         sample_values"""), "FldExporter.write_from_scope")
+
+# ------------------------------------------------------------------------------------------ V9 shapes (C02)
+mutant("c02-shape-activated-no-transpose", "C02", (T, "            np.atleast_2d(self.degree).T,\n", "            np.atleast_2d(self.degree),\n"), "V9/Activated.membership")
+mutant("c02-shape-activated-no-squeeze", "C02", (T, "        return y.squeeze()  # type:ignore", "        return y  # type:ignore"), "V9/")
+mutant("c02-shape-centroid-no-squeeze", "C02", (D, "z = ((x * y).sum(axis=1) / y.sum(axis=1)).squeeze()", "z = ((x * y).sum(axis=1) / y.sum(axis=1))"), "V9/Centroid.defuzzify")
+mutant("c02-shape-centroid-axis0", "C02", (D, "z = ((x * y).sum(axis=1) / y.sum(axis=1)).squeeze()", "z = ((x * y).sum(axis=0) / y.sum(axis=0)).squeeze()"), "V9/Centroid.defuzzify")
+mutant("c02-shape-bisector-no-keepdims", "C02", (D, "index = area == area.min(axis=1, keepdims=True)", "index = area == area.min(axis=1)"), "V9/Bisector.defuzzify")
+mutant("c02-shape-bisector-last-column", "C02", (D, "area = np.abs((area / area[:, [-1]]) - 0.5)", "area = np.abs((area / area[:, -1]) - 0.5)"), "V9/Bisector.defuzzify")
+mutant("c02-shape-weighted-sum-total", "C02", (D, "        y = (weighted_sum / weights).squeeze()  # type: ignore", "        y = (weighted_sum / weights).sum()  # type: ignore"), "V9/WeightedAverage.defuzzify")
+mutant("c02-shape-kernel-global-max", "C02", (N, """        a = scalar(a)
+        b = scalar(b)
+        return np.minimum(a, b)""", """        a = scalar(a)
+        b = scalar(b)
+        return np.minimum(a, b).min()"""), "V9/Minimum.compute")
